@@ -240,7 +240,7 @@ pub fn main(args: &Args) -> i32 {
     if let Some(path) = &args.replay {
         return replay(prop, path);
     }
-    let cases = if args.cases > 0 { args.cases } else if args.thorough() { 20000 } else { 1500 };
+    let cases = if args.cases > 0 { args.cases } else if args.thorough() { 30000 } else { 4000 };
     let caps = if args.thorough() { (3000, 6000) } else { (400, 1200) };
     let strat = case_strategy();
     let result = drive(&strat, cases, args.seed ^ fnv(prop.as_bytes()), 400, &mut run, |case, run| {
